@@ -64,7 +64,12 @@ func (self SyntaxError) description() string {
 
 func calcBounds(size int, pos int) (lbound int, lwidth int, rbound int, rwidth int) {
 	if pos >= size || pos < 0 {
-		return 0, 0, size, 0
+		/* nothing to point at (e.g. end of input): show the end of the source, not all of it */
+		lbound = size - 32
+		if lbound < 0 {
+			lbound = 0
+		}
+		return lbound, size - lbound, size, 0
 	}
 
 	i := 16
